@@ -105,15 +105,17 @@ Fixpoint nameoffset_find_go (l : list nameoffset) (name : list N) (best : option
   match l with
   | [] => best
   | (vn, vi) :: rest =>
+    (* every `continue` of the C loop is written out: the extracted code must evaluate exactly one
+       recursive call per element (a shared [let] would be evaluated eagerly, and a second time in
+       the matching case - exponential for names that all extend each other) *)
     let name_len := slen name in
-    let continue := nameoffset_find_go rest name best in
-    if slen vn >? name_len then continue else
-    if match best with Some (bn, _) => slen bn >? slen vn | None => false end then continue else
+    if slen vn >? name_len then nameoffset_find_go rest name best else
+    if match best with Some (bn, _) => slen bn >? slen vn | None => false end then nameoffset_find_go rest name best else
     let prefix_len := name_len - slen vn in
-    if negb (list_eqb vn (skipn (Z.to_nat prefix_len) name)) then continue else
+    if negb (list_eqb vn (skipn (Z.to_nat prefix_len) name)) then nameoffset_find_go rest name best else
     if negb (prefix_len =? 0) &&
        negb (match nth_error name (Z.to_nat (prefix_len - 1)) with Some c => N.eqb c 46 | None => false end)
-    then continue else
+    then nameoffset_find_go rest name best else
     nameoffset_find_go rest name (Some (vn, vi))
   end.
 
